@@ -431,7 +431,9 @@ type tsState struct {
 	src  string // text of the piece that left a word character last
 }
 
-func mkPiece(first, last int, text string) tsPiece { return tsPiece{first: first, last: last, text: text} }
+func mkPiece(first, last int, text string) tsPiece {
+	return tsPiece{first: first, last: last, text: text}
+}
 
 func isWordByte(b byte) bool {
 	switch {
@@ -558,7 +560,7 @@ func c05TokenSeparation(c *Ctx, p *Prog, pp *packages.Package) {
 					}
 					flush()
 					if len(rest) == 0 {
-						out = append(out, mkPiece(tsUnknown, tsUnknown, "%" + string(format[i])))
+						out = append(out, mkPiece(tsUnknown, tsUnknown, "%"+string(format[i])))
 						continue
 					}
 					a := rest[0]
